@@ -37,7 +37,8 @@ pub fn gen_churn_shape(rng: &mut Rng) -> ChurnShape {
 
 pub fn gen_churn_program(s: &ChurnShape) -> Module {
     let mut main = Function::default();
-    let lit = "x".repeat(s.string_len);
+    // every third shape uses multi-byte characters (byte length and char count differ)
+    let lit = if s.string_len % 3 == 2 { "xé語".repeat(s.string_len / 3 + 1) } else { "x".repeat(s.string_len) };
     main.cards.push(Card::set_var("keep", c(CardBody::CreateTable)));
     main.cards.push(Card::set_global_var("live", Card::read_var("keep")));
     main.cards.push(Card::set_var("junk", c(CardBody::ScalarNil)));
